@@ -38,7 +38,7 @@ MIN_NONTRIVIAL = {'quick': 1500, 'thorough': 15000}
 REQUIRED = ('streets_completed', 'draw_rounds_checked', 'burns_checked',
             'default_dealee_checks', 'explicit_player_deals',
             'chunked_deals', 'fallback_streets', 'folded_player_streets',
-            'discard_probes',
+            'discard_probes', 'board_sizes_checked',
             'multi_board_streets', 'street_validation_probes',
             'mixed_facing_draws',
             'interleave_points')
@@ -133,7 +133,25 @@ class DealMonitor(Monitor):
                 ctx.counters['multi_board_streets'] += 1
         return self.cur
 
+    def _check_boards(self, ctx, s, where):
+        """Each board holds exactly what the streets dealt so far prescribe
+        (looked up in the state, not in the operation records)."""
+        if s.street_index is None:
+            return
+        exp = sum(st.board_dealing_count
+                  for st in s.streets[:s.street_index + 1])
+        if self.cur is not None and getattr(self.cur, 'fallback', False):
+            return          # stud fallback: a community card replaces holes
+        got = [len(list(s.get_board_cards(j))) for j in s.board_indices]
+        ctx.counters['board_sizes_checked'] += 1
+        if any(g != exp for g in got) or (exp and not got):
+            ctx.violate(f'{where}: boards hold {got} cards, the streets '
+                        f'dealt so far prescribe {exp} each '
+                        f'(board_cards {s.board_cards})')
+
     def on_decision(self, ctx, s, avail):
+        if s.status and s.actor_index is not None:
+            self._check_boards(ctx, s, f'betting on street {s.street_index}')
         if not s.status:
             self._finish(ctx, 'hand over')
             return
